@@ -18,7 +18,7 @@ func init() {
 			"C02.2 who-hands-out: the manager's GetRegistrations returns only what the filter produced; " +
 			"C02.3 phantom scoping: every GetRegistrations call in a transport (and in its helpers, through their static call sites) is passed the connection's phantom parameter, and the handler passes the connection's original destination; " +
 			"C02.4 identity checks dominate success: min returns the map element under the presented tag with the found-flag true; prefix returns only under transport-type == Prefix and, for typed params, prefix-id == the matched prefix, keyed by the revealed tag; obfs4 returns the registration whose keys produced the matching mark; " +
-			"C02.5 Valid is stored true only in register and false only when tracking; " +
+			"C02.5 Valid is stored true only in register and false only when tracking; C02.11 track clears Valid on every path to the insertion into the table; C02.12 the DTLS listener's peer check verifies the presented certificate against the secret-derived key (shared with C16.3); " +
 			"C02.6 identifier labels of the deployed transports are pairwise distinct and keyed by the shared secret. " +
 			"Decides that matching can only see valid registrations of the connection's own phantom and that success is dominated by the per-transport identity checks; cryptographic unforgeability and expiry (C08) are not decided.",
 		Assume: []string{"HMAC-SHA256 / the obfuscators are unforgeable", "map lookup on the full tag rejects any altered tag"}})
@@ -390,6 +390,71 @@ func checkC02(c *Ctx) {
 				"the validity flag is written outside the validate step ("+fnName(f)+" stores "+val+"): a registration becomes usable without passing admission, or a usable one is silently disabled")
 		}
 	}
+	// ---- C02.11 a registration enters the table not valid, whatever its history: the same object can be tracked again
+	// after it expired
+	r.Rule("C02.11", "a registration is inserted into the table with Valid cleared (or removal clears it)", 1)
+	if f := c.fn("C02.11", "pkg/station/lib", "RegisteredDecoys", "track"); f != nil && len(f.Params) == 2 {
+		d := f.Params[1]
+		isClear := func(in ssa.Instruction) bool {
+			st, ok := in.(*ssa.Store)
+			if !ok {
+				return false
+			}
+			fa, ok := st.Addr.(*ssa.FieldAddr)
+			if !ok || fa.X != ssa.Value(d) {
+				return false
+			}
+			if o, fld, ok := fieldOwner(fa); !ok || o != "lib.DecoyRegistration" || fld != "Valid" {
+				return false
+			}
+			cv, isC := constOf(st.Val)
+			return isC && cv.String() == "false"
+		}
+		// ... or the object loses the flag when it leaves the table
+		clearedOnRemoval := false
+		if rm := c.P.Func(repoMod+"/pkg/station/lib", "RegisteredDecoys", "removeRegistration"); rm != nil {
+			clears := map[ssa.Instruction]bool{}
+			for _, st := range fieldStores(rm, "lib.DecoyRegistration", "Valid") {
+				if cv, isC := constOf(st.Val); isC && cv.String() == "false" {
+					clears[st] = true
+				}
+			}
+			if len(clears) > 0 {
+				clearedOnRemoval = true
+				eachInstr(rm, func(in ssa.Instruction) {
+					if call, ok := in.(*ssa.Call); ok {
+						if b, ok := call.Call.Value.(*ssa.Builtin); ok && b.Name() == "delete" {
+							if skip, _ := reach(rm, nil, isInstr(in), anyOf(clears), nil); skip {
+								clearedOnRemoval = false
+							}
+						}
+					}
+				})
+			}
+		}
+		n := 0
+		eachInstr(f, func(in ssa.Instruction) {
+			mu, ok := in.(*ssa.MapUpdate)
+			if !ok || mu.Value != ssa.Value(d) {
+				return
+			}
+			n++
+			skip, w := reach(f, nil, isInstr(in), isClear, nil)
+			if skip && !clearedOnRemoval {
+				r.Bad("C02.11", "track: the registration is inserted without clearing its Valid flag", in.Pos(), fnName(f),
+					"a registration object that was validated, expired and is tracked again enters the table with Valid still set: first flights are matched to it although it was not validated again", r.blockPath(f, w)...)
+			} else {
+				r.OK("C02.11", "track: d.Valid = false on every path to the insertion", in.Pos(), "must-pass")
+			}
+		})
+		if n == 0 {
+			r.Unk("C02.11", "track: insertion of the registration", f.Pos(), fnName(f), "no map update storing the tracked registration found")
+		}
+	}
+	// ---- C02.12 the DTLS sibling of the tag test: a session is handed to the waiting registration only if the peer
+	// certificate was signed with the key derived from that registration's secret
+	r.Rule("C02.12", "DTLS sessions are accepted only with a certificate signed by the secret-derived key", 1)
+	checkVerifyCert(c, "C02.12")
 	// register is only reached from AddRegistration
 	if reg := c.P.Func(repoMod+"/pkg/station/lib", "RegisteredDecoys", "register"); reg != nil {
 		var callers []string
